@@ -29,10 +29,10 @@ _FAM = [
        ("request-refused", "request-incomplete", "uri-rejected")),
     _e("c09_req_line", "'GET' b b b 'HTTP/1.1 CRLF CRLF' | 'GET / HTTP/1.1' b b b | 'GET /' b 'HTTP/' b '.' b CRLF CRLF" + _B + _R2 + _CL + _DQ,
        "as quick, and b b 'GET / HTTP/1.0 CRLF' b LF | b b 'T / HTTP/1.1 CRLF H: v CRLF CRLF'" + _CL + _DT, ("request-accepted", "request-refused", "request-incomplete")),
-    _e("c09_req_target", "'GET http://' b b '.a/ HTTP/1.1 CRLF CRLF' | 'GET http://h.a:' b b '/ HTTP/1.1 CRLF CRLF' | 'CONNECT ' b b ':44' b ' HTTP/1.1 CRLF CRLF'" + _B + _R1 + _CL + _DQ,
+    _e("c09_req_target", "'GET http://' b b '/ HTTP/1.1 CRLF CRLF' | 'GET http://h.a:' b b '/ HTTP/1.1 CRLF CRLF' | 'CONNECT ' b b ':44' b ' HTTP/1.1 CRLF CRLF'" + _B + _R1 + _CL + _DQ,
        "as quick, and 'GET http://[fc00::' b ']' b '8/ HTTP/1.1 CRLF CRLF' | 'GET ftp://u' b 'p@h.a' b '/ HTTP/1.1 CRLF CRLF' | 'GET /' b b ' HTTP/1.0 CRLF Host: a' b CRLF CRLF" + _CL + _DT,
        ("request-accepted", "request-refused", "uri-rejected")),
-    _e("c09_req_hdr", _GET + "'Host' b ':v CRLF X: y CRLF CRLF' | 'A: b' b b 'X: y CRLF CRLF' | 'A: b CRLF' b b 'CRLF X: y CRLF CRLF' | 'X: y CRLF' b b CRLF; pipelined: 'GET / HTTP/1.1 CRLF' b LF b 'ET / HTTP/1.1 CRLF CRLF' | "
+    _e("c09_req_hdr", _GET + "'Host' b ':v CRLF X: y CRLF CRLF' | 'A:' b b 'X: y CRLF CRLF' | 'A: b CRLF' b b 'CRLF X: y CRLF CRLF' | 'X: y CRLF' b b CRLF; pipelined: 'GET / HTTP/1.1 CRLF' b LF b 'ET / HTTP/1.1 CRLF CRLF' | "
        + _RQC + "'0 CRLF CRLF' b b 'T / HTTP/1.0 CRLF CRLF'" + _B + _R1 + _CL + _DQ, "as quick" + _CL + _DT,
        ("request-accepted", "request-refused", "request-header-rejected", "pipelined", "body-done")),
     _e("c09_req_fields", "'POST / HTTP/1.1 CRLF Content-Length: 1' b 'CRLF Content-Length:' b '1 CRLF CRLF' | " + _GET + "'Range: bytes=' b '-' b 'CRLF CRLF' | " + _GET + "'Cache-Control: max-age=' b ',' b 'CRLF CRLF' | "
@@ -48,7 +48,7 @@ _FAM = [
        "1xx: 'HTTP/1.1 1' b b ' C CRLF CRLF HTTP/1.1 200 OK CRLF CRLF' | 'HTTP/1.1 100 Continue CRLF' b LF 'HTTP/1.' b ' 200 OK CRLF CRLF' (relaxed_header_parser on); "
        "reply_header_max_size symbolic in [8,44] against 'HTTP/1.1 200 OK CRLF Server: abcdefg CRLF' b LF (relaxed_header_parser in {0,1})" + _B + _SV + _DQ,
        "as quick; the limit skeleton is 'HTTP/1.1 200 OK' b LF 'Server: abcdefg CRLF' b LF" + _SV + _DT, ("reply-accepted", "reply-refused", "1xx", "truncated", "reply-header-rejected")),
-    _e("c09_rep_hdr", _OK + "'Host' b ':v CRLF X: y CRLF CRLF' | 'A: b' b b 'X: y CRLF CRLF' | 'A: b CRLF' b b 'CRLF X: y CRLF CRLF'; 'HTTP/1.1 200 OK' b LF 'A: b' b b CRLF b LF; dates: " + _OK +
+    _e("c09_rep_hdr", _OK + "'Host' b ':v CRLF X: y CRLF CRLF' | 'A:' b b 'X: y CRLF CRLF' | 'A: b CRLF' b b 'CRLF X: y CRLF CRLF'; 'HTTP/1.1 200 OK' b LF 'A: b' b b CRLF b LF; dates: " + _OK +
        "'Date: Sun, 06 Nov 1994 08:49:' b b ' GMT CRLF CRLF' | 'Expires: ' b b 'CRLF CRLF' | 'Last-Modified: Sunday, 06-Nov-94 08:' b b ':37 GMT CRLF CRLF'" + _B + _R1 + _SV + _DQ,
        "as quick; the date skeletons are " + _OK + "'Date: Sun, 06 Nov 1994 08:49:' b b ' GMT CRLF Expires: ' b b 'CRLF CRLF' | 'Date: ' b b b 'CRLF CRLF' | 'Last-Modified: Sunday, 06-Nov-94 08:' b b ':37 GMT CRLF Keep-Alive:' b 'CRLF CRLF'" + _SV + _DT,
        ("reply-accepted", "reply-refused", "reply-header-rejected", "truncated")),
